@@ -465,9 +465,16 @@ J gen_sessions(uint64_t seed, const J &ov)
 	cfg.set("password", gen_password(r));
 	int bits = ov.has("tun_bits") ? (int)ov.geti("tun_bits") : (int)(r.chance(0.6) ? r.range(24, 27) : r.range(8, 30));
 	if (fpool && !ov.has("tun_bits")) bits = (int)(r.chance(0.5) ? r.range(27, 30) : r.range(8, 30));
-	cfg.set("tun_bits", bits);
 	// server host position inside the subnet
 	uint32_t base = ((uint32_t)10 << 24) | ((uint32_t)r.range(0, 255) << 16) | ((uint32_t)r.range(0, 255) << 8) | (uint32_t)r.range(0, 255);   // any subnet of 10/8, also ones that do not start at .0
+	if (r.chance(0.35)) {
+		// other private ranges: addresses whose text form is up to 15 characters long
+		uint32_t o1 = 192, o2 = 168;
+		switch (r.range(0, 2)) { case 0: o1 = 172; o2 = (uint32_t)r.range(16, 31); break; case 1: o1 = 100; o2 = (uint32_t)r.range(64, 127); break; default: break; }
+		base = (o1 << 24) | (o2 << 16) | ((uint32_t)(r.chance(0.6) ? r.range(100, 255) : r.range(0, 255)) << 8) | (uint32_t)(r.chance(0.6) ? r.range(100, 255) : r.range(0, 255));
+		if (bits < 16) bits = (int)r.range(16, 30);
+	}
+	cfg.set("tun_bits", bits);
 	uint32_t hostmask = bits >= 32 ? 0 : (0xffffffffu >> bits);
 	uint32_t hostpart = (uint32_t)r.range(1, std::max<int64_t>(1, std::min<int64_t>(hostmask - 1, 20)));
 	if (r.chance(0.2) && hostmask > 2) hostpart = hostmask - 1;
